@@ -7,7 +7,7 @@ from odata_query import ast, exceptions
 from odata_query.grammar import ODataLexer, ODataParser
 
 from vt import closure, lrx, terms as T
-from vt.decode import decode, digest_ast
+from vt.decode import decode, digest_ast, malformed
 from vt.refprint import to_odata
 from vt.runner import Acc, chunked
 
@@ -58,6 +58,9 @@ def run_one(text, lx=None, ps=None):
     except Exception as e:  # noqa
         return ("foreign:" + type(e).__name__, str(e)[:160])
     if isinstance(r, ast._Node):
+        bad = malformed(r)
+        if bad:
+            return ("non-node:malformed AST", bad)
         return ("node", digest_ast(r))
     return ("non-node:" + type(r).__name__, repr(r)[:100])
 
